@@ -869,3 +869,36 @@ Proof.
       + injection Hr as _ _ Hc. apply N.eqb_neq in C. congruence. }
   apply (G l1 (tstate0 img) 0 R).
 Qed.
+
+(* ------------------------------------------------------------------ *)
+(* the free-order set (GENERATED from node.go isFreeOrderMessage) contains no message that
+   tells the outside world about a vote, a term won or entries held *)
+Lemma free_order_excludes_claims_proved : forall m,
+  is_free_order_message (m_type m) = true ->
+  is_ack m = false /\ is_grant m = false /\ is_vote_request m = false /\
+  (m_type m =? mt_HeartbeatResp) = false /\ (m_type m =? mt_RequestVoteResp) = false /\
+  (m_type m =? mt_ReplicateResp) = false.
+Proof.
+  intros m H.
+  assert (A : (m_type m =? mt_ReplicateResp) = false).
+  { destruct (m_type m =? mt_ReplicateResp) eqn:E; [|reflexivity].
+    apply N.eqb_eq in E. rewrite E in H. vm_compute in H. discriminate. }
+  assert (B : (m_type m =? mt_RequestVoteResp) = false).
+  { destruct (m_type m =? mt_RequestVoteResp) eqn:E; [|reflexivity].
+    apply N.eqb_eq in E. rewrite E in H. vm_compute in H. discriminate. }
+  assert (C : (m_type m =? mt_RequestVote) = false).
+  { destruct (m_type m =? mt_RequestVote) eqn:E; [|reflexivity].
+    apply N.eqb_eq in E. rewrite E in H. vm_compute in H. discriminate. }
+  assert (D : (m_type m =? mt_HeartbeatResp) = false).
+  { destruct (m_type m =? mt_HeartbeatResp) eqn:E; [|reflexivity].
+    apply N.eqb_eq in E. rewrite E in H. vm_compute in H. discriminate. }
+  unfold is_ack, is_grant, is_vote_request. rewrite A, B, C. cbn [andb]. repeat split; assumption || reflexivity.
+Qed.
+
+(* the only free-order messages are leader-to-follower traffic: Replicate and Ping *)
+Lemma free_order_set_proved : forall t,
+  is_free_order_message t = true -> t = mt_Replicate \/ t = mt_Ping.
+Proof.
+  intros t H. unfold is_free_order_message in H. apply orb_true_iff in H.
+  destruct H as [H|H]; apply N.eqb_eq in H; auto.
+Qed.
